@@ -188,6 +188,21 @@ fn dec_add(s: &str, delta: i64) -> String {
         digits.to_string()
     }
 }
+/// decimal string * 2
+fn dec_double(s: &str) -> String {
+    let mut out: Vec<u8> = Vec::with_capacity(s.len() + 1);
+    let mut carry = 0u8;
+    for b in s.bytes().rev() {
+        let t = (b - b'0') * 2 + carry;
+        out.push(b'0' + t % 10);
+        carry = t / 10;
+    }
+    if carry > 0 {
+        out.push(b'0' + carry);
+    }
+    out.reverse();
+    String::from_utf8(out).unwrap()
+}
 fn mag_add(m: &[u8], mut d: u64) -> Vec<u8> {
     let mut v = m.to_vec();
     let mut i = v.len();
@@ -346,6 +361,32 @@ fn explore(ctx: &mut Ctx) {
         }
     }
     ctx.exhaustive_part("every integer type: MIN-12..=MIN+12 and MAX-12..=MAX+12 as decimal strings x 6 suffixes, 30 leading zeros, leading '+', extra '-', one extra digit (0-9), single-digit substitutions of MIN/MAX");
+    // (c2) cross-type boundaries: the neighbourhood of every power of two (2^k - 3 ..= 2^k + 3, k = 1..=128, incl. the
+    // MIN/MAX of every *narrower* type) and of every power of ten, fed to every integer type, positive and negated
+    {
+        let mut bases: Vec<String> = Vec::new();
+        let mut p2 = String::from("1");
+        for _k in 1..=128 {
+            p2 = dec_double(&p2);
+            bases.push(p2.clone());
+        }
+        let mut p10 = String::from("1");
+        for _k in 1..=39 {
+            p10.push('0');
+            bases.push(p10.clone());
+        }
+        for b in &bases {
+            for d in -3..=3 {
+                let v = dec_add(b, d);
+                for ty in INT_TYPES {
+                    eval(ctx, ty, &v);
+                    eval(ctx, ty, &format!("-{v}"));
+                    eval(ctx, ty, &format!("{v}x"));
+                }
+            }
+        }
+    }
+    ctx.exhaustive_part("cross-type boundaries: 2^k-3..=2^k+3 (k=1..=128) and 10^k-3..=10^k+3 (k=1..=39), plain / negated / with a suffix, for all 12 integer types");
     // (d) bool shapes
     for b in ["true", "false", "tru", "fals", "truee", "falsey", "True", "FALSE", " true", "true ", "", "t", "f", "truefalse", "falsetrue", "٣true"] {
         with_suffixes(ctx, Ty::Bool, b);
